@@ -458,7 +458,7 @@ pub fn compute_lattice_index(rows: &Vec<Vec<i64>>, hmin: f64, hmax: f64) -> u128
     assert!(hmax / hmin < 1.5);
     assert!(hmax.log2() < 126.0);
     let mut rows: Vec<&[i64]> = rows.iter().map(|v| &v[..]).collect();
-    rows.sort_by_cached_key(|x| x.iter().map(|&y| y * y).sum::<i64>());
+    rows.sort_by_cached_key(|x| x.iter().map(|&y| y as i128 * y as i128).sum::<i128>());
     let dim = rows[0].len();
     let mut gcd = I4096::ZERO;
     for idx_start in 0..max(4, rows.len()) - 3 {
